@@ -38,7 +38,7 @@ nfix = len(set(f.get('commit') for f in kf['findings'] if f.get('status') == 'fi
 SUMMARY = SUMMARY.replace('0 genuine defects', '%d genuine defects' % nfix, 1).replace('0 seeded changes', '%d seeded changes' % sum(tally.values()), 1)
 SUMMARY = SUMMARY.replace(': 0 were reported', ': %d were reported' % tally['first'], 1).replace('first run, 0 were missed', 'first run, %d were missed' % tally['after'], 1).replace('missing), 0 cannot', 'missing), %d cannot' % tally['outside'], 1)
 txt = txt.replace('SUMMARY_PLACEHOLDER', SUMMARY)
-NEUTRAL = ('### 7.3 Behaviour-preserving changes (no alarm expected)\n\nOne refactoring per property, written by sub-agents that saw only the property text and were asked for changes a maintainer '
+NEUTRAL = ('### 7.3 Behaviour-preserving changes (no alarm expected)\n\nTwo refactorings per property (suffix n1, n2), written by sub-agents that saw only the property text and were asked for changes a maintainer '
            'would commit that keep every observable behaviour (loop <-> algorithm call, merged/split detail functions, negated conditions, equivalent arithmetic, renamed privates).  '
            'Expected outcome of the quick command: exit 0.  %d of %d gave exit 0 at the first run; none produced a VIOLATION line.\n\n'
            '| id | change | why equivalent (author) | checks |\n|---|---|---|---|\n' % (sum(1 for r in nrows if 'first run exit 2' not in r), len(nrows))) + '\n'.join(nrows) + '\n\n'
